@@ -317,13 +317,13 @@ def corrupt_pipe(lines, pid):
 
 
 def _pipe_family(name, modes, stages, n, space, engines="dagre"):
-    FAMILIES[name] = dict(vdrive="pipe", trace_module="TracePipeline", trace_cfg="TracePipeline.cfg", corrupt=corrupt_pipe, engine="TracePipeline",
+    FAMILIES[name] = dict(vdrive="pipe", trace_module="TracePipeline", trace_cfg="TracePipeline.cfg", corrupt=corrupt_pipe, engine="TracePipeline", crash_props=["C07"],
                           args={"modes": modes, "stages": stages, "n": str(n), "space": str(space), "engines": engines}, chunk=1500, heap="4g")
 
 
-_pipe_family("pipe_fmt", "text,text2", "fmt", 300, 1200)
-_pipe_family("pipe_compile", "text,text-mut,text2,text2-mut", "compile", 800, 4000)
-_pipe_family("pipe_det", "text,text2", "determinism", 150, 1200)
+_pipe_family("pipe_fmt", "text,text2,soup", "fmt", 300, 1200)
+_pipe_family("pipe_compile", "text,text-mut,text2,text2-mut,soup", "compile", 800, 4000)
+_pipe_family("pipe_det", "text,text2,soup", "determinism", 150, 1200)
 _pipe_family("pipe_layout", "layout,layout-tricky", "layout", 100, 1200, "dagre,elk")
 _pipe_family("pipe_serde", "layout,layout-tricky", "layout,serde", 60, 1200, "dagre,elk")
 
@@ -531,7 +531,7 @@ def corrupt_parse(lines, pid):
     return None
 
 
-FAMILIES["parse"] = dict(vdrive="parse", trace_module="TraceD2Parse", trace_cfg="TraceD2Parse.cfg", corrupt=corrupt_parse, engine="TraceD2Parse", args={"n": "900"}, chunk=1200, heap="4g")
+FAMILIES["parse"] = dict(vdrive="parse", trace_module="TraceD2Parse", trace_cfg="TraceD2Parse.cfg", corrupt=corrupt_parse, engine="TraceD2Parse", crash_props=["C01"], args={"n": "900"}, chunk=1200, heap="4g")
 _ps_rule = ("the input space is FIXED (input #i from seed i, 9900 inputs; quick takes the 900 VERIF_SEED selects): generated programs (mode text), the same damaged in 1-3 places, raw byte strings of 1-7 bytes over 31 structural/invalid bytes "
             "(incl. UTF-16 LE with BOM, odd and even payloads, and multi-byte/astral prefixes), constructs nested or left open 1-2000 deep, key/value fragments, and systematic token rows (28 tokens incl. *, ${x}, ...${x}, quotes, escapes, brackets, arrows: every pair and every triple of tokens next to each other in a key, a value and a connection label, 2436 rows of 28 lines); each through Parse (UTF-8 and UTF-16 position modes), ParseKey, ParseMapKey, ParseValue. Non-trivial: ")
 PROPS["C01"] = dict(family="parse", level="exploration", design_ref="5", technique="totality monitor in TLA+ over call/return events of the four parser entry points: returned, no panic, no timeout (20 s), a tree (Parse: always) or errors, errors positioned",
